@@ -1,6 +1,6 @@
 (* C05 — Output matching equals the documented relation for every flag combination. *)
 From XD Require Import Model.Base Model.Ellipsis Model.Checker Spec.EllipsisSpec Spec.MatchRel
-  Proofs.CheckerProofs Proofs.CheckerRefuted.
+  Proofs.CheckerProofs Proofs.CheckerRefuted Proofs.MonotoneNW.
 
 (* the verdict of check_output is exactly the documented relation, for all texts and all flags *)
 Theorem C05_relation :
@@ -27,6 +27,24 @@ Theorem C05_monotone_partial :
   check_output fl got want = true -> check_output (set_len f fl) got want = true.
 Proof. exact check_output_monotone. Qed.
 Print Assumptions C05_monotone_partial.
+
+(* ... for NORMALIZE_WHITESPACE the guard on ELLIPSIS is not needed: the wildcard relation survives the collapsing of
+   white space (Proofs/EllCollapse.v).  Only NORMALIZE_REPR has to be off (F7c shows that this cannot be dropped) *)
+Theorem C05_monotone_normalize_whitespace :
+  forall fl got want, NORMALIZE_REPR fl = false ->
+  check_output fl got want = true -> check_output (set_len L_NORMALIZE_WHITESPACE fl) got want = true.
+Proof. exact check_output_monotone_nw. Qed.
+Print Assumptions C05_monotone_normalize_whitespace.
+
+(* non-vacuous: a match that exists only through the wildcard, blanks that the collapsing changes on both sides *)
+Theorem C05_monotone_normalize_whitespace_example :
+  let fl := mkFlags true false false false false false false in
+  let got := [97;32;32;98;32;120;10;99]%N in
+  let want := [97;32;32;98;32;46;46;46;10;99]%N in
+  check_output fl got want = true /\ eqb_str got want = false /\
+  check_output (set_len L_NORMALIZE_WHITESPACE fl) got want = true.
+Proof. exact monotone_nw_example. Qed.
+Print Assumptions C05_monotone_normalize_whitespace_example.
 
 (* ... and is FALSE of the faithful model outside MonoGuard: three witnesses (finding F7) *)
 Theorem C05_monotone_refuted_IW :
